@@ -172,13 +172,18 @@ def main_case(rng, root):
         files[os.path.join(root, subs[name].relpath)] = file_text(rng, subs[name], subs, root)
     main_rel = os.path.join(rng.choice(["", "a", "progs"]), "main.xbb")
     lines = ["name main", "version 1.0"]
+    hdr_extra = []
+    if rng.random() < 0.3:
+        # the including script is a template itself: a parameter in its target / type options, before the include lines
+        hdr_extra = [rng.choice(["target gaussian (shots={nshots})", "type mytype (copies={ncopies}, depth=2)", "target dev (shots={nshots}, cutoff={nshots})"])]
+        lines += hdr_extra
     used = rng.sample(order, rng.randint(1, len(order)))
     for u in used:
         lines.append('include "%s"' % rel_include(rng, main_rel, subs[u].relpath, root))
     if rng.random() < 0.3:
         lines.append(lines[-1])
     lines.append("")
-    inl = ["name main", "version 1.0", ""]
+    inl = ["name main", "version 1.0"] + hdr_extra + [""]
     pool = [0, 1, 2, 3, 4, 5, 6, 7, 8, 9]
     prev_kw = {}
     for u in used:
